@@ -181,11 +181,92 @@ Definition dump_okb (dumpdir : bstr) (hs : list bstr) (names : list (option bstr
   forallb (fun a => forallb (fun b => if fid_eqb (snd a) (snd b) then call_eqb (fst a) (fst b) else true) es) es
   && forallb (fun p => match p with Some p => underb dumpdir p | None => true end) names.
 
+(* ---- a dump tree: the rsync repository and the first two RRDP repositories of the case, every
+   rsync URI written into each of them (Store::dump_point: get_repo_path, then dump_object) ---- *)
+
+Definition dump_repos (hs : list bstr) : list (option https_uri) :=
+  None :: map Some (firstn 2 (flat_map (fun h => match https_parse h with Some n => [n] | None => [] end) hs)).
+
+(* directory of each repository after the registry calls of [dump_calls] *)
+Fixpoint reg_after (r : registry) (calls : list (option https_uri)) : registry :=
+  match calls with
+  | [] => r
+  | c :: rest => match get_repo_name r c with
+                 | Some (_, r') => reg_after r' rest
+                 | None => reg_after r rest
+                 end
+  end.
+
+Definition dump_dirs (base : bstr) (hs : list bstr) : list (option https_uri * option bstr) :=
+  let r := reg_after reg_empty (dump_calls hs) in
+  map (fun c => (c, match get_repo_name r c with Some (d, _) => Some (push base d) | None => None end)) (dump_repos hs).
+
+(* every write: (repository, rsync URI, path), in the order the harness performs them *)
+Definition dump_writes (base : bstr) (rs hs : list bstr) : list (option https_uri * rsync_uri * bstr) :=
+  flat_map (fun cd => match snd cd with
+                      | Some dir => flat_map (fun r => match rsync_parse r with
+                                                       | Some u => [(fst cd, u, dump_object_path dir u)]
+                                                       | None => [] end) rs
+                      | None => [] end) (dump_dirs base hs).
+
+(* a small file system for the writes: a write fails if the path has a trailing separator
+   (File::create), if a parent is an existing file (create_dir_all) or if the target is an existing
+   directory; otherwise it replaces what was at the same resolved path.  Files are kept as
+   (index of the write, resolved components). *)
+Fixpoint strict_prefixb (a b : list bstr) : bool :=
+  match a, b with
+  | [], _ :: _ => true
+  | x :: a', y :: b' => beqb x y && strict_prefixb a' b'
+  | _, _ => false
+  end.
+
+Fixpoint dump_fs (files : list (nat * list bstr)) (idx : nat)
+                 (ws : list (option https_uri * rsync_uri * bstr)) : list (nat * list bstr) :=
+  match ws with
+  | [] => files
+  | (_, _, p) :: rest =>
+      let files' :=
+        match norm p with
+        | None => files
+        | Some c =>
+            if dirflag p then files
+            else if existsb (fun f => strict_prefixb (snd f) c || strict_prefixb c (snd f)) files then files
+            else (idx, c) :: filter (fun f => negb (lbeqb (snd f) c)) files
+        end in
+      dump_fs files' (S idx) rest
+  end.
+
+(* where the content of each write is found afterwards, relative to the dump directory *)
+Definition dump_tree (dumpdir : bstr) (ws : list (option https_uri * rsync_uri * bstr)) : list (option bstr) :=
+  let files := dump_fs [] 0 ws in
+  let depth := match norm dumpdir with Some r => List.length r | None => O end in
+  map (fun i => match find (fun f => Nat.eqb (fst f) i) files with
+                | Some (_, c) => Some (join_with SLASH (skipn depth c))
+                | None => None
+                end) (seq 0 (List.length ws)).
+
+Definition rsync_eqvb (u v : rsync_uri) : bool := lbeqb (rkey u) (rkey v).
+
+(* two writes go to the same file only for the same repository and equivalent URIs *)
+Definition dump_tree_okb (ws : list (option https_uri * rsync_uri * bstr)) : bool :=
+  forallb (fun a => forallb (fun b =>
+    if fid_eqb (fid (snd a)) (fid (snd b))
+    then call_eqb (fst (fst a)) (fst (fst b)) && rsync_eqvb (snd (fst a)) (snd (fst b)) else true) ws) ws.
+
+(* the known-finding class: a repository directory of the dump that is not a plain new name:
+   authority "", "." or ".." (the directory is the dump's base or its parent) or "rsync"
+   (the directory of the rsync repository) *)
+Definition dump_known (hs : list bstr) : bool :=
+  existsb (fun h => match https_parse h with
+                    | Some n => negb (normalb (lower (h_auth n))) || beqb (lower (h_auth n)) (bytes_of "rsync")
+                    | None => false end) hs.
+
 Record case := { c_cache : bstr; c_rs : list bstr; c_hs : list bstr;
                  c_paths : list (option bstr);       (* hooks: the path builders, order of [entries] *)
                  c_tafiles : list (option bstr);     (* public Store Run::update_ta, file found on disk *)
                  c_dumpnames : list (option bstr);   (* public DumpRegistry::get_repo_path *)
-                 c_dumpfiles : list (option bstr) }. (* hook Store::dump_object, file found on disk *)
+                 c_dumpfiles : list (option bstr);   (* hook Store::dump_object, file found on disk *)
+                 c_dumptree : list (option bstr) }.  (* registry + dump_object into one tree, files found *)
 
 Definition labels_of (es : list (option (label * bstr))) : list (option label) := map (option_map fst) es.
 Definition labels_model (cache : bstr) (rs hs : list bstr) : list (option label) :=
@@ -222,17 +303,25 @@ Definition cache_okb (cache : bstr) : bool :=
 
 (* 0 agree + property; 1 property holds on the implementation's paths but the model differs;
    2 property fails on the implementation's paths (spec_okb, or two uses of different kinds share a
-   file: cross_okb); 3 known finding class: the dump registry gives two
-   repositories the same directory or leaves the dump directory; 9 precondition *)
+   file: cross_okb; or two dump writes share a file / a dump directory is shared or outside the dump
+   directory, outside the known class); 3 the same for a case in the known-finding class
+   [dump_known]; 9 precondition *)
 Definition check_case (c : case) : N :=
   if negb (cache_okb (c_cache c) && forallb bytes_okb (c_rs c) && forallb bytes_okb (c_hs c)) then 9
   else
     let m := model_all (c_cache c) (c_rs c) (c_hs c) in
     if negb (spec_with (labels_of (fst m)) c) then 2
     else if negb (cross_okb (labels_of (fst m)) (c_paths c)) then 2
-    else if negb (dump_okb (push (c_cache c) (bytes_of "dump")) (c_hs c) (c_dumpnames c)) then 3
-    else if olist_eqb (map (option_map snd) (fst m)) (c_paths c)
-            && olist_eqb (snd m) (c_tafiles c)
-            && olist_eqb (dumpnames_model (dump_base (c_cache c)) (c_hs c)) (c_dumpnames c)
-            && olist_eqb (dumpfiles_model (push (c_cache c) (bytes_of "dumpobj")) (c_rs c)) (c_dumpfiles c)
-         then 0 else 1.
+    else
+      let ws := dump_writes (dump_base (c_cache c)) (c_rs c) (c_hs c) in
+      let agree :=
+        olist_eqb (map (option_map snd) (fst m)) (c_paths c)
+        && olist_eqb (snd m) (c_tafiles c)
+        && olist_eqb (dumpnames_model (dump_base (c_cache c)) (c_hs c)) (c_dumpnames c)
+        && olist_eqb (dumpfiles_model (push (c_cache c) (bytes_of "dumpobj")) (c_rs c)) (c_dumpfiles c)
+        && olist_eqb (dump_tree (push (c_cache c) (bytes_of "dump")) ws) (c_dumptree c) in
+      (* the dump oracles are evaluated on paths the model computes; they count only if the
+         implementation produced exactly these paths *)
+      if negb agree then 1
+      else if dump_okb (push (c_cache c) (bytes_of "dump")) (c_hs c) (c_dumpnames c) && dump_tree_okb ws then 0
+      else if dump_known (c_hs c) then 3 else 2.
